@@ -254,13 +254,13 @@ def run(ctx):
     sel = rng.sample(rows, ctx.pick(90, 530)) if ctx.quick else list(rows)
     maxK = ctx.pick(4, 6)
     for i, r in enumerate(sel):
-        for k in range(ctx.pick(1, 3)):
+        for k in range(ctx.pick(1, 6)):
             mode = "mol" if (i + k) % 3 == 0 and len(r["ops"]) <= 48 else "atomic"
             jobs.append((r, ctx.seed * 99991 + i * 13 + k, mode, maxK))
-    for j, r in enumerate(special_rows(rows) * ctx.pick(8, 60)):
+    for j, r in enumerate(special_rows(rows) * ctx.pick(8, 150)):
         jobs.append((r, ctx.seed * 7 + 5000 + j, ("oblique", "oblique-mol", "oblique", "mol")[j % 4], maxK))
     tri = [r for r in rows if r["number"] in (1, 2)]
-    for j in range(ctx.pick(40, 400)):
+    for j in range(ctx.pick(40, 1200)):
         jobs.append((tri[j % len(tri)], ctx.seed * 11 + 9000 + j, "mol-long", maxK))
     recs = [x for x in pool_map(gen, jobs) if "__none__" not in x]
     ctx.notes["structures_generated"] = len(recs)
